@@ -1197,6 +1197,17 @@ def rule_RG(run: Run) -> RuleResult:
         ok = ok and good
     res.add("labrea.interface.Implementation.__init__:every member registered under every alias", ok, im.module.relpath, fn.lineno,
             "; ".join(how) or "no registration", nec)
+    # what is registered is the implementation member itself — the object looked up in the table of overloads built from
+    # the class body — not a part of it (its inner definition, its overload table): the implementation's own dataset is the
+    # node that is evaluated, logged, cached and seen by handlers when the interface member dispatches to it (C18)
+    ok_v, how_v = bool(reg_events), []
+    for (fl_, ln_), e in sorted(reg_events.items()):
+        vk = e.args[1].key() if len(e.args) > 1 else ""
+        good = vk.startswith(("call:get(", "getitem(", "elem(", "call:pop("))
+        how_v.append(vk[:70])
+        ok_v = ok_v and good
+    res.add("labrea.interface.Implementation.__init__:registers the implementation member itself", ok_v, im.module.relpath, fn.lineno,
+            "; ".join(sorted(set(how_v))) or "no registration", nec)
     # every interface's member of a name is collected (multi-interface implementations)
     bodies_ = [h_.node for h_ in helpers] + [fn]
     gm = next((h_ for h_ in helpers if any(isinstance(c, ast.Call) and isinstance(c.func, ast.Attribute) and c.func.attr in ("append", "setdefault") for c in ast.walk(h_.node))
